@@ -51,7 +51,7 @@ class Call:
   """One RPC, as seen by the fault policy and the recorder."""
   __slots__ = ('idx', 'addr_idx', 'address', 'method', 'origin', 'future',
                'payload', 'timeout', 'start', 'outcome', 'node', 'faults',
-               'faults_pending', 'ran_at')
+               'faults_pending', 'ran_at', 'reply_mark')
 
   def __init__(self, idx, addr_idx, address, method, origin, future, payload,
                timeout, start):
@@ -69,6 +69,7 @@ class Call:
     self.faults = []
     self.faults_pending = ()
     self.ran_at = None     # simulated time at which the bound function started
+    self.reply_mark = False  # the reply value mentions a TimeoutError
 
   def brief(self):
     return (self.idx, self.address, self.method, self.addr_idx, self.outcome,
@@ -272,7 +273,10 @@ class Net:
         args, kwargs = pickle.loads(call.payload)
         call.ran_at = time.monotonic()
         try:
-          result = pickle.dumps(fn(*args, **kwargs))
+          value = fn(*args, **kwargs)
+          # a bytes search, nothing is unpickled: no effect on the schedule
+          call.reply_mark = isinstance(value, bytes) and b'TimeoutError' in value
+          result = pickle.dumps(value)
           ok = True
         except Exception as e:  # pylint: disable=broad-exception-caught
           text = ''.join(traceback.format_exception_only(type(e), e)).strip()
